@@ -12,7 +12,7 @@ PROPS = {
         "level": "proof",
         "clause": "split_comment_token: every comment split out of a merged comment run reports the line, 1-based character column, absolute byte offset and byte "
                   "length of its regex match, in match order, for any number/size of comments and any UTF-8 text (Verus, unbounded).",
-        "assumptions": ["not covered: positions parol's lexer assigns to ordinary tokens (external dependency), Token::end_line/end_column, token_range arithmetic",
+        "assumptions": ["not covered: positions parol's lexer assigns to ordinary tokens (external dependency), token_range arithmetic",
                         "assumed: byte model of &str (utf8() uninterpreted, chars = non-continuation bytes), regex matches are in-bounds/ordered/non-overlapping and on char boundaries"],
     },
     "C17": {
